@@ -201,6 +201,15 @@ func newGlobal(prog *ssa.Program, pkgs []*packages.Package, cs *Contracts) *Glob
 				g.ghostFields[tk] = map[string]string{}
 			}
 			g.ghostFields[tk][fname] = fs[1]
+		case "ghostarray":
+			fs := strings.Fields(d.Text)
+			if len(fs) == 2 {
+				k, srt := KBool, fs[1]
+				if srt == "int" {
+					k = KInt
+				}
+				g.compKT["$ghost:"+fs[0]+"[]"] = compKT{k, nil}
+			}
 		case "axiom":
 			g.axioms = append(g.axioms, d)
 		}
